@@ -3,7 +3,7 @@ import NbioVerif.Lemmas.ConnBasic
 namespace ConnFull
 
 /-- the poller/kernel-side fields (everything the data invariant does not mention) -/
-def E (s : S) := (s.isWAdded, s.rearm, s.evErr, s.reg, s.kOut, s.disarmed, s.ctl, s.onClose, s.connecting, s.connEv)
+def E (s : S) := (s.isWAdded, s.rearm, s.evErr, s.reg, s.kOut, s.disarmed, s.ctl, s.onClose, s.connecting, s.connEv, s.idle)
 /-- the data fields -/
 def D (s : S) := (s.closed, s.hung, s.wl, s.left, s.wire, s.accepted)
 
@@ -620,6 +620,12 @@ theorem invD_registerDial (g : Cfg) (s : S) (hi : InvD g s) : InvD g (registerDi
   · exact hi
   · exact (InvD.of_D (s := s) (t := { s with isWAdded := true, connecting := true }) rfl hi).of_D (D_pAddReadWrite g _)
 
+theorem invD_registerDialNow (g : Cfg) (s : S) (hi : InvD g s) : InvD g (registerDialNow g s) := by
+  unfold registerDialNow
+  split
+  · exact hi
+  · exact (InvD.of_D (s := s) (t := { s with isWAdded := true, idle := true }) rfl hi).of_D (D_pAddReadWrite g _)
+
 theorem invD_flipWE (g : Cfg) (s : S) (h : InvD g s) : InvD g (flipWE s) :=
   invD_flip g _ (h.of_D (s := s) (t := stopTimer s) rfl)
 
@@ -729,6 +735,7 @@ theorem invD_step (g : Cfg) (s : S) (op : Op) (hi : InvD g s) (htp : s.tearPendi
   | sendfile off len ks => exact (invD_sendfile g s off len ks hi).of_D (D_ghost _ _ _)
   | register => exact (invD_register g s hi).of_D (D_ghost _ _ _)
   | registerDial => exact (invD_registerDial g s hi).of_D (D_ghost _ _ _)
+  | registerDialNow => exact (invD_registerDialNow g s hi).of_D (D_ghost _ _ _)
   | evTake o i e ks => exact (invD_evTake g s _ i e ks hi).of_D (D_ghost _ _ _)
   | evEnd => exact invD_evEnd g s hi
   | evConnEnd => exact invD_evConnEnd g s hi
